@@ -54,11 +54,20 @@ impl PushSubscriptionsRegistry {
     /// Gets the entries in the registry.
     pub fn entries(&self) -> Vec<(SubscriptionName, PushConfig)> {
         let state = self.state.read();
-        state
+        #[allow(unused_mut)]
+        let mut entries = state
             .push_subscriptions
             .iter()
             .map(|(id, pc)| (id.clone(), pc.clone()))
-            .collect::<Vec<_>>()
+            .collect::<Vec<_>>();
+        // The iteration order of the map is arbitrary: the harness decides it.
+        #[cfg(deltio_verif)]
+        {
+            entries.sort_by_key(|(id, _)| id.to_string());
+            let k = crate::verif::order("push-registry.entries", entries.len());
+            entries.rotate_left(k);
+        }
+        entries
     }
 }
 
